@@ -25,7 +25,7 @@ TIMEOUT_MS = {"quick": 60000, "thorough": 300000}
 
 def tasks(tier):
     t = [("t_default_record", {}), ("t_presets", {})]
-    asm = [["olivine"], ["olivine", "enstatite"], ["enstatite", "olivine"], ["olivine", "pyroxene"]]
+    asm = [["olivine"], ["olivine", "enstatite"], ["enstatite", "olivine"], ["olivine", "pyroxene"], [0, 1], [0, 7]]
     for a, letter in it.product(asm, ["A", "C", "Z"] if tier == "quick" else ["A", "B", "C", "D", "E", "Z"]):
         for nf in (1, 2):
             t.append(("t_config_params", {"assemblage": a, "n_fractions": nf, "fabric": letter}))
@@ -206,7 +206,7 @@ def t_config_params(sess, assemblage, n_fractions, fabric):
     tag = f"config params[{assemblage}, {n_fractions} fraction(s), fabric {fabric}]"
     sess.paths[tag] = {"paths": len(paths)}
     P, F = core.MineralPhase, core.MineralFabric
-    valid_names = all(a in P.__members__ for a in assemblage)
+    valid_names = all((a in P.__members__) if isinstance(a, str) else (a in [int(x) for x in P]) for a in assemblage)
     reached = False
     reported = {}
     for k, p in enumerate(paths):
@@ -322,7 +322,7 @@ def replay_config(case):
     lines.append("[parameters]")
     omit = set(case.get("omit", []))
     if "phase_assemblage" not in omit and case.get("assemblage"):
-        lines.append("phase_assemblage = [" + ", ".join(f'"{a}"' for a in case["assemblage"]) + "]")
+        lines.append("phase_assemblage = [" + ", ".join((f'"{a}"' if isinstance(a, str) else str(a)) for a in case["assemblage"]) + "]")
         if "phase_fractions" not in omit:
             n = len(case["assemblage"])
             lines.append("phase_fractions = [" + ", ".join(["0.5", "0.5"][:n] if n == 2 else ["1.0"]) + "]")
